@@ -437,18 +437,24 @@ def main(argv=None):
             if line not in known_lines:
                 known_lines.append(line)
             continue
-        path = write_replay(pid, {'property': pid, 'kind': 'impl', 'seed': seed, 'case': c, 'result': r, 'violated': msgs,
+        # a plugin may declare a failing case to be a broken tie (e.g. a static analysis of the source that no longer derives the
+        # modelled descriptor) rather than a concrete failing input: reported with the suffix no-failing-input-found
+        noinput = bool(hasattr(plugin, 'no_input') and plugin.no_input(c, r, msgs))
+        path = write_replay(pid, {'property': pid, 'kind': 'tie' if noinput else 'impl', 'seed': seed, 'case': c, 'result': r, 'violated': msgs,
                                   'how': './check %s --replay <this file>' % pid})
-        violations.append(('impl', path, ''))
+        violations.append(('tie' if noinput else 'impl', path, ' no-failing-input-found' if noinput else ''))
         if len(violations) >= 5:
             break
 
     need_search = False
+    only_ties = bool(violations) and all(k == 'tie' for k, _, _ in violations)
     if not violations:
         if not A['ok']:
             need_search = True
         if b_fail:
             need_search = True
+    if only_ties:
+        need_search = True       # a broken tie: look for a concrete failing input as well
     if need_search:
         found = None
         # the mismatching correspondence cases are the first candidates: already checked by C above (clean),
@@ -478,7 +484,9 @@ def main(argv=None):
                                       'how': './check %s --replay <this file>' % pid})
             violations.append(('impl', path, ''))
         else:
-            if b_fail:
+            if only_ties and A['ok'] and not b_fail:
+                pass             # the tie violations stand as reported, without a failing input
+            elif b_fail:
                 c, r, t, v = b_fail[0]
                 diag = ''
                 if hasattr(plugin, 'coq_diag'):
@@ -582,7 +590,8 @@ def replay(plugin, pid, path, work):
     log('implementation result: %s' % json.dumps(r, default=str)[:2000])
     if msgs:
         log('violated clauses: %s' % msgs)
-        log('VIOLATION property=%s replay=%s' % (pid, path))
+        noinput = bool(hasattr(plugin, 'no_input') and plugin.no_input(c, r, msgs))
+        log('VIOLATION property=%s replay=%s%s' % (pid, path, ' no-failing-input-found' if noinput else ''))
         return 1
     t = plugin.coq(c, r)
     if t is not None:
